@@ -19,6 +19,8 @@ IR (hashable tuples):
  ("copy", L) ("removeone", L, x) ("appended", L, x)
  ("phi", cond, a, b) ("carried", name, loop) ("acc", name) ("unknown", text)
  ("lambda", (("bv", param, uid), ...), body)      a lambda / a nested single-return def used as a value
+ ("rectype", name, (field, ...)[, ((field, default), ...)])   a namedtuple type (handed in through `consts`)
+ ("record", name, ((field, value), ...))           an instance built by calling a rectype
 """
 from __future__ import annotations
 
@@ -272,7 +274,12 @@ class Flow:
         return self.lookup(n.id)
 
     def e_Attribute(self, n):
-        return ("attr", self.ev(n.value), n.attr)
+        base = self.ev(n.value)
+        if base[0] == "record":
+            for nm, val in base[2]:
+                if nm == n.attr:
+                    return val
+        return ("attr", base, n.attr)
 
     def e_JoinedStr(self, n):
         parts = []
@@ -465,6 +472,18 @@ class Flow:
             r = self._apply(self.env[f.id], args, kws)
             if r is not None:
                 return r
+        # `Point(1, y=2)` with Point a namedtuple type known to the caller (consts: ("rectype", name, fields)): the record with
+        # every field bound -- reading `.x` / `[0]` / unpacking it then yields the field's value
+        if isinstance(f, (ast.Name, ast.Attribute)) and all(k != "**" for k, _ in kws) and not any(a[0] == "star" for a in args):
+            ctor = self.ev(f)
+            if ctor[0] == "rectype":
+                fields = ctor[2]
+                given = dict(zip(fields, args))
+                if len(args) <= len(fields) and all(k in fields and k not in given for k, _ in kws):
+                    given.update(kws)
+                    given = {**dict(ctor[3]), **given} if len(ctor) > 3 else given
+                    if all(fl_ in given for fl_ in fields):
+                        return ("record", ctor[1], tuple((fl_, given[fl_]) for fl_ in fields))
         if isinstance(f, ast.Name) and self.func_resolver is not None and f.id not in self.env and self._depth < 2 and all(k != "**" for k, _ in kws):
             callee = self.func_resolver(f.id)
             if callee is not None and callee is not self.func:
@@ -576,6 +595,8 @@ class Flow:
                     self.bind(e.value, ("item", value, ("star", i, n)), node)
                 elif value[0] in ("tuple", "list") and not star and len(value[1]) == n:
                     self.bind(e, value[1][i], node)
+                elif value[0] == "record" and not star and len(value[2]) == n:
+                    self.bind(e, value[2][i][1], node)
                 else:
                     self.bind(e, ("item", value, i if not star or i < star[0] else i - n), node)
         elif isinstance(target, ast.Subscript):
@@ -1264,6 +1285,28 @@ def simp(v):
             if c_[0] in ("phi", "ifexp") and len(c_) == 4 and not any(x in bound for x in walk(c_[1])):
                 arm = lambda w: simp(("comp", v[1], v[2], ((tg, it, tuple(ifs[:i_]) + (w,) + tuple(ifs[i_ + 1:])),)))
                 return ("phi", c_[1], arm(c_[2]), arm(c_[3]))
+    # first-hit-wins selection: `x = a; if not x: x = b` / `if a: return a; return b` / `a if a else b` all yield `a or b`
+    # (the value of `or` is its first truthy operand, else the last one); nested selections flatten into one chain
+    if k in ("phi", "ifexp") and len(v) == 4:
+        c, pol = norm_guard((v[1], True))
+        hit, miss = (v[2], v[3]) if pol else (v[3], v[2])
+        if hit == c and c[0] not in ("const", "cmp", "bool", "unop"):
+            parts = (c,) + (tuple(miss[2]) if miss[0] == "bool" and miss[1] == "Or" else (miss,))
+            return ("bool", "Or", parts)
+        if hit[0] == "bool" and hit[1] == "Or" and c == hit:
+            # `x = a or b; if not x: x = c`
+            return ("bool", "Or", tuple(hit[2]) + (tuple(miss[2]) if miss[0] == "bool" and miss[1] == "Or" else (miss,)))
+    if k == "bool" and v[1] == "Or" and any(x[0] == "bool" and x[1] == "Or" for x in v[2]):
+        return ("bool", "Or", tuple(y for x in v[2] for y in (x[2] if x[0] == "bool" and x[1] == "Or" else (x,))))
+    # a record (namedtuple / dataclass instance built from a known constructor): field access by name or position
+    if k == "attr" and v[1][0] == "record":
+        for nm, val in v[1][2]:
+            if nm == v[2]:
+                return val
+    if k in ("sub", "item") and v[1][0] == "record":
+        i = v[2][1] if k == "sub" and v[2][0] == "const" else v[2] if k == "item" else None
+        if type(i) is int and -len(v[1][2]) <= i < len(v[1][2]):
+            return v[1][2][i][1]
     if k == "sub":
         base, idx = v[1], v[2]
         if base[0] in ("list", "tuple") and idx[0] == "const" and isinstance(idx[1], int) \
